@@ -1,3 +1,5 @@
 SPECIFICATION TSpec
+CONSTANTS
+  RaceTokenWait = TRUE
 INVARIANTS Report
 CHECK_DEADLOCK FALSE
